@@ -571,6 +571,7 @@ class _MPIBC(BCBase):
         *,
         rank: int = 0,
         node_id: int | None = None,
+        flip_sign: bool = False,
     ):
         """
         Args:
@@ -586,8 +587,12 @@ class _MPIBC(BCBase):
                 The tensorial rank of the field for this boundary condition
             node_id (int):
                 The MPI node (the subgrid ID) this BC is associated with
+            flip_sign (bool):
+                Flip the sign of the received ghost cells. This is necessary when the
+                boundary coincides with the seam of an anti-periodic axis.
         """
         super().__init__(mesh[node_id], axis, upper, rank=rank)
+        self.flip_sign = flip_sign
         neighbor_id = mesh.get_neighbor(axis, upper, node_id=node_id)
         if neighbor_id is None:
             msg = "No neighboring cell for this boundary"
@@ -603,7 +608,10 @@ class _MPIBC(BCBase):
         self._idx_write = (Ellipsis, *idx)
 
     def _repr_value(self):
-        return [f"neighbor={self._neighbor_id}"]
+        res = [f"neighbor={self._neighbor_id}"]
+        if self.flip_sign:
+            res.append("flip_sign=True")
+        return res
 
     def __eq__(self, other):
         """Checks for equality neglecting the `upper` property.
@@ -619,6 +627,7 @@ class _MPIBC(BCBase):
             and self.axis == other.axis
             and self.rank == other.rank
             and self._neighbor_id == other._neighbor_id
+            and self.flip_sign == other.flip_sign
         )
 
     def _cache_hash(self) -> int:
@@ -630,6 +639,7 @@ class _MPIBC(BCBase):
                 self.axis,
                 self.rank,
                 self._neighbor_id,
+                self.flip_sign,
             )
         )
 
@@ -660,6 +670,8 @@ class _MPIBC(BCBase):
         from ...tools.mpi import mpi_recv
 
         mpi_recv(data_full[self._idx_write], self._neighbor_id, self._mpi_flag)
+        if self.flip_sign:
+            data_full[self._idx_write] *= -1
 
 
 class UserBC(BCBase):
